@@ -135,6 +135,10 @@ class Ref:
             return self.give(m[cf(k)]) if cf(k) in m else NONE
         if o == 'getitem':
             return self.give(m[cf(k)]) if cf(k) in m else KEYERR
+        if o == 'getd':       # the explicit default only when the name is not declared
+            return self.give(m[cf(k)]) if cf(k) in m else [A('dflt'), int(a[2])]
+        if o == 'popdv':
+            return self.give(m.pop(cf(k))) if cf(k) in m else [A('dflt'), int(a[2])]
         if o in ('lookup', 'gettype'):
             j = self.find(i, k, boolean(a[2]))
             if j is None:
@@ -188,6 +192,10 @@ class RefDict:
             return UNIT
         if o == 'get':
             return val(self.m[k]) if k in self.m else NONE
+        if o == 'getd':
+            return val(self.m[k]) if k in self.m else val(int(a[1]))
+        if o == 'popdv':
+            return val(self.m.pop(k)) if k in self.m else val(int(a[1]))
         if o == 'getitem':
             if k not in self.m and self.kind == 'cidd':
                 self.m[k] = 0
@@ -214,6 +222,34 @@ class RefDict:
 
 def content(v):
     return v.tag or 0
+
+
+class Sentinel:
+    """an explicit default object passed to ``get`` / ``pop`` (neither None nor a SymbolAttributes)"""
+
+    def __init__(self, n):
+        self.n = n
+
+
+# dictionary payloads: the naturals 0..3 stand for the falsy values 0, '', (), False; n >= 4 is the int n
+FALSY = [0, '', (), False]
+
+
+def enc(n):
+    n = int(n)
+    return FALSY[n] if n < len(FALSY) else n
+
+
+def dec(x):
+    if x is False:
+        return 3
+    if isinstance(x, tuple) and x == ():
+        return 2
+    if isinstance(x, str) and x == '':
+        return 1
+    if isinstance(x, int) and not isinstance(x, bool) and (x == 0 or x >= len(FALSY)):
+        return x
+    return [A('payload'), repr(x)]      # something the model cannot produce
 
 
 class Real:
@@ -337,6 +373,12 @@ class Real:
                 return NONE if r is None else self.give(r)
             if o == 'getitem':
                 return self.give(t[k])
+            if o in ('getd', 'popdv'):
+                dflt = Sentinel(int(a[2]))
+                r = t.get(k, dflt) if o == 'getd' else t.pop(k, dflt)
+                if isinstance(r, Sentinel):
+                    return [A('dflt'), r.n] if r is dflt else [A('dflt'), r.n, A('foreign')]
+                return NONE if r is None else self.give(r)
             if o == 'lookup':
                 r = t.lookup(k, recursive=boolean(a[2]))
                 return NONE if r is None else self.give(r)
@@ -394,41 +436,53 @@ class RealDict:
         self.kind = kind
         self.d = CaseInsensitiveDict() if kind == 'cid' else CaseInsensitiveDefaultDict(int)
 
+    @staticmethod
+    def out(r):
+        """value handed out by the dictionary -> (val n); None -> none"""
+        if r is None:
+            return NONE
+        n = dec(r)
+        return val(n) if isinstance(n, int) else n
+
     def step(self, op):
         o, a, d = str(op[0]), op[1:], self.d
         try:
             if o == 'update':
-                items = [(k, int(v)) for k, v in a[1:]]
+                items = [(k, enc(v)) for k, v in a[1:]]
                 d.update(dict(items) if str(a[0]) == 'dict' else items)
                 return UNIT
             k = a[0]
             if o == 'set':
-                d[k] = int(a[1])
+                d[k] = enc(a[1])
                 return UNIT
             if o == 'get':
-                r = d.get(k)
-                return NONE if r is None else val(r)
+                return self.out(d.get(k))
+            if o == 'getd':
+                return self.out(d.get(k, enc(a[1])))
             if o == 'getitem':
-                return val(d[k])
+                return self.out(d[k])
             if o == 'contains':
                 return k in d
             if o == 'del':
                 del d[k]
                 return UNIT
             if o == 'pop':
-                return val(d.pop(k))
+                return self.out(d.pop(k))
             if o == 'popd':
-                r = d.pop(k, None)
-                return NONE if r is None else val(r)
+                return self.out(d.pop(k, None))
+            if o == 'popdv':
+                return self.out(d.pop(k, enc(a[1])))
             if o == 'setdefault':
-                r = d.setdefault(k, int(a[1]))
-                return NONE if r is None else val(r)
+                return self.out(d.setdefault(k, enc(a[1])))
         except KeyError:
             return KEYERR
         raise ValueError(o)
 
+    def state(self):
+        return {k: dec(v) for k, v in self.d.items()}
+
     def items(self):
-        return [[k, v] for k, v in self.d.items()]
+        return [[k, dec(v)] for k, v in self.d.items()]
 
 
 # ---------------------------------------------------------------------------------------------
@@ -693,7 +747,7 @@ class C12(Prop):
         for n, op in enumerate(ops):
             exp = ref.step(op)
             got = real.step(op)
-            now = {k: v for k, v in real.d.items()}
+            now = real.state()
             if got != exp or now != ref.m:
                 return [Failure(f'{kind} op {n} {dumps(op)}: real gives {dumps(got)} / {now}, a mapping keyed by the '
                                 f'lower-cased key gives {dumps(exp)} / {ref.m}')]
